@@ -80,6 +80,54 @@ class PathEnv:
             while is_node(i) and i["k"] == "Cast":
                 i = i["e"]
             p = self.path(i) if is_node(i) and i["k"] in ("Member", "Subscript") else None
+            if p is None and is_node(i) and i["k"] in ("Cond", "Binary", "Call", "Unary"):
+                # an encoded copy: `T local = mode && m > 4 ? m - 1 : m;` or `T local = ToFileForm(version, m);` — the local still
+                # stands for the one member whose *value* it is computed from (other inputs: constants, the version, the stream
+                # mode, bool flags).  A quantity derived through a method of the member (`str.length()`) is not a copy of it.
+                mems = set()
+
+                def value_expr(x):
+                    if not is_node(x):
+                        return False
+                    k_ = x["k"]
+                    if k_ in ("Lit", "Sizeof"):
+                        return True
+                    if k_ == "Cast":
+                        return value_expr(x["e"])
+                    if k_ == "Unary" and x["op"] in ("-", "~", "!", "+"):
+                        return value_expr(x["e"])
+                    if k_ == "Binary":
+                        return value_expr(x["l"]) and value_expr(x["r"])
+                    if k_ == "Cond":
+                        return value_expr(x["c"]) and value_expr(x["a"]) and value_expr(x["b"])
+                    if k_ == "Member" and x.get("mk", "field") == "field":
+                        if x.get("val") is not None:
+                            return True
+                        px = self.path(x)
+                        if px is not None and px[0][0] == "this":
+                            mems.add(px)
+                            return True
+                        return False
+                    if k_ == "Ref":
+                        al_ = self.alias.get(x.get("id"))
+                        if al_ is not None and al_[0][0] == "this":
+                            mems.add(al_)  # a local that already stands for a member
+                            return True
+                        if x.get("val") is not None or x.get("rk") in ("global", "enumerator", "staticlocal") or x.get("rk") is None:
+                            return True
+                        t_ = (x.get("ct") or x.get("t") or "").replace("const ", "")
+                        return t_ == "bool" or "Stream" in t_ or "NiVersion" in t_
+                    if k_ == "Call":
+                        cls_ = x.get("cls") or ""
+                        if cls_ in ("nifly::NiVersion",) or x.get("short") in ("GetVersion", "GetMode", "GetHeader"):
+                            return True  # version / mode tests
+                        if x.get("recv") is None and not x.get("ext"):
+                            return all(value_expr(a_) for a_ in x.get("args", []))  # a free / static conversion helper
+                        return False
+                    return False
+
+                if value_expr(i) and len(mems) == 1:
+                    p = next(iter(mems))
             if p is not None and p[0][0] == "this":
                 self.alias[v["id"]] = p
 
@@ -461,6 +509,11 @@ class Summarizer:
             ms = st is not None and ("D", "mode-split") in st
             lp = col.loops_at.get(id(n), ())
             site = ((fn["id"], n.get("loc", "")),)
+            algo = self._std_algorithm(n, env, fn, st, lambdas) if n["k"] == "Call" and n.get("ext") else None
+            if algo is not None:
+                for ev in algo:
+                    out.append(Event(ev.path, ev.kind, ev.info, g + ev.guards, site + ev.chain, lp + ev.loops))
+                continue
             prim = self.primitive(n, env, fn, st)
             if prim is not None:
                 for ev in prim:
@@ -519,6 +572,60 @@ class Summarizer:
                     if ms and not info.get("modesplit"):
                         info = dict(info, modesplit=fn["name"])
                     out.append(Event(np, ev.kind, info, g + ev.guards, site + ev.chain, lp + ev.loops))
+        return out
+
+    STD_ALGOS = {"for_each", "transform", "any_of", "all_of", "none_of", "find_if", "find_if_not", "count_if", "copy_if", "remove_if"}
+
+    def _std_algorithm(self, n, env, fn, st, lambdas):
+        """`std::for_each(c.begin(), c.end(), lambda)` and friends: the lambda runs on every element of c, so its events are
+        those of `for (auto& x : c) lambda(x)`; `std::transform(..., std::back_inserter(v), lambda)` additionally does
+        `v.push_back(<what the lambda returns>)`.  -> list of events, or None when n is not such a call"""
+        if n.get("short") not in self.STD_ALGOS:
+            return None
+        args = n.get("args", [])
+        lam = None
+        for a in args:
+            b = a
+            while is_node(b) and b["k"] in ("Cast", "Construct") and (b.get("e") is not None or len(b.get("args", [])) == 1):
+                b = b["e"] if b.get("e") is not None else b["args"][0]
+            if is_node(b) and b["k"] == "Lambda" and b.get("fid") in self.F.fns:
+                lam = b["fid"]
+            elif is_node(b) and b["k"] == "Ref" and b.get("id") in lambdas:
+                lam = lambdas[b["id"]]
+        first = args[0] if args else None
+        while is_node(first) and first["k"] == "Cast":
+            first = first["e"]
+        if lam is None or not (is_node(first) and first["k"] == "Call" and first.get("short") in ("begin", "cbegin") and is_node(first.get("recv"))):
+            return None
+        cont = env.path(first["recv"])
+        elem = None if cont is None else cont + ("[*]",)
+        lamfn = self.F.fns[lam]
+        loop = ("repeat " + show(first["recv"]) + ".size()",) if False else ("each " + show(first["recv"]),)
+        out = []
+
+        def into_caller(ev):
+            if ev.path is not None and ev.path[0][0] in ("this", "$v"):
+                np = self._lambda_path(ev.path, env)
+            else:
+                np = subst(ev.path, None, [elem])
+            if np is None and ev.path is not None:
+                np = (("$lost", render(ev.path)),)
+            return Event(np, ev.kind, ev.info, ev.guards, ev.chain, loop + ev.loops)
+
+        for ev in self.events(lam, 1):
+            out.append(into_caller(ev))
+        if n.get("short") == "transform" and len(args) >= 4:
+            dest = args[2]
+            while is_node(dest) and dest["k"] in ("Cast", "Construct") and (dest.get("e") is not None or len(dest.get("args", [])) == 1):
+                dest = dest["e"] if dest.get("e") is not None else dest["args"][0]
+            if is_node(dest) and dest["k"] == "Call" and dest.get("short") in ("back_inserter", "inserter") and dest.get("args"):
+                lenv = self.env(lamfn)
+                for r in walk(lamfn.get("body") or {}):
+                    if r["k"] == "Return" and is_node(r.get("e")):
+                        fake = {"k": "Call", "ext": True, "short": "push_back", "recv": dest["args"][0], "args": [r["e"]], "loc": r.get("loc", "")}
+                        pr = self.primitive(fake, lenv, lamfn, st)
+                        for ev in (pr or []):
+                            out.append(into_caller(ev))
         return out
 
     def _subst_guards(self, guards, args, env, at):
